@@ -830,7 +830,12 @@ func checkSorters(c *Ctx) {
 	want := map[string]string{"OrderById": "cache.BugsById", "OrderByCreation": "cache.BugsByCreationTime", "OrderByEdit": "cache.BugsByEditTime"}
 	got := map[string]string{}
 	revOn := ""
-	for _, b := range q.Blocks {
+	var qBlocks []*ssa.BasicBlock
+	for _, f := range fnAndHelpers(q, 1) {
+		// the choice of the sorter may live in a same-package helper
+		qBlocks = append(qBlocks, f.Blocks...)
+	}
+	for _, b := range qBlocks {
 		for _, ins := range b.Instrs {
 			bo, ok := ins.(*ssa.BinOp)
 			if !ok || bo.Op != token.EQL {
